@@ -58,6 +58,55 @@ Theorem accepted_without_result_is_referenced : forall ps nc pq rq ops, env_ok o
 Proof. exact accepted_without_result_is_referenced_proved. Qed.
 Print Assumptions accepted_without_result_is_referenced.
 
+(* tick driven expiry, table by table ([h_clock] is the logical clock that node.tick advances for
+   every table on every path - regenerated fact node_tick_advances_all_tables): in every reachable
+   state, a referenced request whose deadline has passed gets its terminal result (Timeout, see
+   completed_only_from_apply_with_that_value for the code) at the next gc of its table that is due
+   (now - lastGcTime >= gcTick), exactly one, and the gc does not panic.
+   Queued reads have no deadline check of their own: the step worker moves them into a batch
+   (TakeReads ; AddReads), where the gc inside applied() finds them. *)
+Theorem tick_expires_proposal : forall ps nc pq rq ops, env_ok ops (init ps nc pq rq) ->
+  let s := run ops (init ps nc pq rq) in
+  h_err (H s) = 0 ->
+  forall kv, In kv (pend (P s)) -> p_stop (P s) (fst kv mod cps s) = false ->
+  (sub64 (h_clock (H s)) (p_lastgc (P s) (fst kv mod cps s)) <? gc_tick) = false ->
+  o_dl (h_objs (H s) (so (snd kv))) < h_clock (H s) ->
+  let s' := step s (GcP (fst kv)) in
+  h_err (H s') = 0 /\ nterm (got s' (sr (snd kv))) = 1%nat.
+Proof. exact tick_expires_proposal_proved. Qed.
+Print Assumptions tick_expires_proposal.
+
+Theorem tick_expires_read : forall ps nc pq rq ops, env_ok ops (init ps nc pq rq) ->
+  let s := run ops (init ps nc pq rq) in
+  h_err (H s) = 0 ->
+  forall a sl, rd_stop (R s) = false ->
+  (sub64 (h_clock (H s)) (rd_lastgc (R s)) <? gc_tick) = false ->
+  In sl (batch_slots (batches (R s))) -> o_dl (h_objs (H s) (so sl)) < h_clock (H s) ->
+  let s' := step s (ReadsApplied a) in
+  h_err (H s') = 0 /\ nterm (got s' (sr sl)) = 1%nat.
+Proof. exact tick_expires_read_proved. Qed.
+Print Assumptions tick_expires_read.
+
+Theorem tick_expires_config_change : forall ps nc pq rq ops, env_ok ops (init ps nc pq rq) ->
+  let s := run ops (init ps nc pq rq) in
+  h_err (H s) = 0 ->
+  forall sl, x_pend (C s) = Some sl ->
+  (sub64 (h_clock (H s)) (x_lastgc (C s)) <? gc_tick) = false ->
+  o_dl (h_objs (H s) (so sl)) < h_clock (H s) ->
+  let s' := step s GcC in h_err (H s') = 0 /\ nterm (got s' (sr sl)) = 1%nat.
+Proof. exact tick_expires_config_change_proved. Qed.
+Print Assumptions tick_expires_config_change.
+
+Theorem tick_expires_snapshot : forall ps nc pq rq ops, env_ok ops (init ps nc pq rq) ->
+  let s := run ops (init ps nc pq rq) in
+  h_err (H s) = 0 ->
+  forall sl, x_pend (S s) = Some sl ->
+  (sub64 (h_clock (H s)) (x_lastgc (S s)) <? gc_tick) = false ->
+  o_dl (h_objs (H s) (so sl)) < h_clock (H s) ->
+  let s' := step s GcS in h_err (H s') = 0 /\ nterm (got s' (sr sl)) = 1%nat.
+Proof. exact tick_expires_snapshot_proved. Qed.
+Print Assumptions tick_expires_snapshot.
+
 (* truthfulness: every result ever delivered is the one its code path produces - the apply path
    delivers Completed/Rejected carrying exactly the value it was given (no assumption on the
    environment needed); gc delivers Timeout only when deadline < now; close only Terminated ...
